@@ -28,3 +28,11 @@ Proof.
   - apply done_no_receive; [apply ex_map_done|].
     intros k. destruct k as [|[|k]]; vm_compute; reflexivity.
 Qed.
+
+(* a function failing on 7: what fail-fast and try-and-continue promise on [1; 7; 3] *)
+Lemma ex_failing_map :
+  let f := fun x => if Z.eqb x 7 then Err (1000 + x) else Ok (2 * x) in
+  map_reach f false [1; 7; 3] = [1; 7] /\ ok_vals f (map_reach f false [1; 7; 3]) = [2] /\
+  err_vals f (map_reach f false [1; 7; 3]) = [1007] /\
+  ok_vals f (map_reach f true [1; 7; 3]) = [2; 6] /\ err_vals f (map_reach f true [1; 7; 3]) = [1007].
+Proof. repeat split; reflexivity. Qed.
